@@ -150,8 +150,9 @@ func (l *RList) Nth(i int) interface{} { return l.items[i] }
 
 // AList is an opaque list only the root resolver's Len/Nth understand.
 type AList struct {
-	items  []interface{}
-	failAt int // -1 = never
+	items   []interface{}
+	failAt  int  // -1 = never
+	failVal bool // the failing access hands the member over together with the error
 }
 
 var errInjected = errors.New("injected failure")
@@ -336,6 +337,9 @@ func (a *anyRes) Nth(list interface{}, i int) (interface{}, error) {
 			return nil, fmt.Errorf("index %d out of bounds", i)
 		}
 		if l.failAt == i {
+			if l.failVal {
+				return l.items[i], errInjected
+			}
 			return nil, errInjected
 		}
 		return l.items[i], nil
@@ -467,13 +471,13 @@ func (w *World) project(v hx.Val, t *hx.TRef, salt string) interface{} {
 			items[i] = w.project(e, et, fmt.Sprintf("%s.%d", salt, i))
 		}
 		h := hashOf(w.C.ListSeed, salt)
-		failAt := -1
+		failAt, failVal := -1, false
 		if f, ok := w.faults[strings.SplitN(salt, ".", 2)[0]]; ok && f.Kind == "nth" && !strings.Contains(salt, ".") {
-			failAt = f.Index
+			failAt, failVal = f.Index, f.N == 1
 		}
 		if failAt >= 0 {
 			countRep("AList")
-			return &AList{items: items, failAt: failAt}
+			return &AList{items: items, failAt: failAt, failVal: failVal}
 		}
 		var variants []string
 		variants = append(variants, "iface", "iface", "ListResolver")
